@@ -269,3 +269,76 @@ Proof.
   - intros [_ [H _]]. specialize (H 1 ltac:(lia)). destruct H as [_ [_ [_ [_ HL]]]]. vm_compute in HL. discriminate.
   - intros [_ [_ [H _]]]. specialize (H 1 ltac:(lia)). destruct H as [_ [_ [_ HL]]]. vm_compute in HL. discriminate.
 Qed.
+
+(* ---------------------------------------------------------------- named constants of Model.v *)
+(* each named constant is what the model's functions use (all by computation) *)
+Lemma derive_binsize_const dmin dmax b :
+  derive dmin dmax (ByBinsize b) = Ok (b, f2z_trunc (PrimFloat.div (PrimFloat.sub dmax dmin) b) + nbin_plus).
+Proof. reflexivity. Qed.
+
+Lemma within_const xmin xmax v :
+  within xmin xmax v = (if lo_inclusive then PrimFloat.leb xmin v else PrimFloat.ltb xmin v)
+                       && (if hi_inclusive then PrimFloat.leb v xmax else PrimFloat.ltb v xmax).
+Proof. reflexivity. Qed.
+
+Lemma chist_const bn nbin s :
+  chist bn nbin s =
+  let nrev := Z.of_nat (length s) + nbin + rev_extra in
+  let '(binold, offset_end, hist, rev) :=
+    c_loop bn nbin s 0 binold_init (nbin + offset_end_init) (zeros nbin) (zeros nrev) in
+  (hist, fill rev (binold + 1) (Z.to_nat (nbin - binold)) offset_end).
+Proof. reflexivity. Qed.
+
+Lemma pyhist_const bn nbin s :
+  pyhist bn nbin s =
+  let nrev := Z.of_nat (length s) + nbin + rev_extra in
+  let '(binold, offset_end, hist, rev) :=
+    py_loop bn nbin s (nbin + offset_init) binold_init (nbin + offset_end_init) (zeros nbin) (zeros nrev) in
+  (hist, fill rev (binold + 1) (Z.to_nat (nbin - binold)) offset_end).
+Proof. reflexivity. Qed.
+
+Lemma c_loop_const bn nbin k ss i binold oe hist rev :
+  c_loop bn nbin (k :: ss) i binold oe hist rev =
+  let offset := i + nbin + offset_init in
+  let rev := zset rev offset k in
+  if valid_bin nbin (bn k) then
+    c_loop bn nbin ss (i + 1) (bn k) (offset + offset_end_step) (zset hist (bn k) (zget hist (bn k) + 1))
+           (if binold <? bn k then fill rev (binold + 1) (Z.to_nat (bn k - binold)) offset else rev)
+  else c_loop bn nbin ss (i + 1) binold oe hist rev.
+Proof. reflexivity. Qed.
+
+Lemma py_loop_const bn nbin k ss offset binold oe hist rev :
+  py_loop bn nbin (k :: ss) offset binold oe hist rev =
+  let rev := zset rev offset k in
+  if valid_bin nbin (bn k) then
+    py_loop bn nbin ss (offset + 1) (bn k) (offset + offset_end_step) (zset hist (bn k) (zget hist (bn k) + 1))
+            (if bn k >? binold then fill rev (binold + 1) (Z.to_nat (bn k - binold)) offset else rev)
+  else py_loop bn nbin ss (offset + 1) binold oe hist rev.
+Proof. reflexivity. Qed.
+
+Lemma resolve_const a k nbin :
+  resolve a k nbin =
+  match a with
+  | ApiHistogram =>
+      match (if hist_nbin_overrides then nbin else None) with
+      | Some n => Some (ByNbin n)
+      | None => match k with
+                | KwVal v => Some (ByBinsize v)
+                | KwOmit => Some (ByBinsize default_binsize)
+                | KwNone => match nbin with Some n => Some (ByNbin n) | None => None end
+                end
+      end
+  | ApiBinner =>
+      match (if binner_binsize_first then match k with KwVal v => Some v | _ => None end else None) with
+      | Some b => Some (ByBinsize b)
+      | None => match nbin with
+                | Some n => Some (ByNbin n)
+                | None => match k with KwVal v => Some (ByBinsize v) | _ => None end
+                end
+      end
+  end.
+Proof. destruct a, k, nbin; reflexivity. Qed.
+
+Lemma histogram_api_engines_equal a x lo hi k nb :
+  histogram_api EngC a x lo hi k nb = histogram_api EngPy a x lo hi k nb.
+Proof. unfold histogram_api. destruct (resolve a k nb); [apply histogram_engines_equal|reflexivity]. Qed.
